@@ -489,11 +489,26 @@ def c20(ctx):
     cases = ctx.gen("MC_C20")
     # attacker-controlled length fields make the archive layer allocate gigabytes: cap allocations so that they
     # fail fast (bad_alloc is an acceptable outcome)
-    env = {"SEV_CASE_TIMEOUT": "30"}
+    env = {"SEV_CASE_TIMEOUT": "30", "SEV_NEW_CAP_MB": "256"}
     if cfg == "asan":
         env["ASAN_OPTIONS"] = "allocator_may_return_null=1:max_allocation_size_mb=256:detect_leaks=0"
+        # a throwing operator new that the sanitizer refuses is reported as a fatal error by ASan; it stands for bad_alloc
+        ctx.crash_ignore = r"AddressSanitizer: (allocator is out of memory|requested allocation size|failed to allocate)|allocation-size-too-big|out-of-memory"
     else:
         env["SEV_AS_LIMIT_MB"] = "1024"
-    events = ctx.drive(cfg, cases, env=env, max_crashes=60)
+    events = ctx.drive(cfg, cases, env=env, max_crashes=3000 if ctx.thorough else 60)
+    if ctx.ignored_crashes:
+        ctx.notes.append("%d mutated archives made the sanitizer refuse a giant allocation (counted as bad_alloc)" % ctx.ignored_crashes)
     bad = ctx.validate("Trace_C20", events, floor=0.9)
     ctx.judge(bad, cases)
+
+
+@plan("C44")
+def c44(ctx):
+    ctx.rule = ("TLC enumerates the expression pool of module ExprPool (numbers of every kind, functions, relationals, "
+                "logic, sets, derivatives, piecewise), sums / products / powers / quotients and functions of them, and "
+                "an SBML fragment; LaTeX, MathML, Unicode, Julia and SBML printers are run on each; TLC validates "
+                "totality (an expression or a 'not supported' exception), balanced LaTeX groups and \\left/\\right pairs "
+                "and well-formed MathML by pushdown automata over the extracted token sequences, and the SBML round "
+                "trip parse_sbml(sbml(e)) = e on the fragment")
+    simple(ctx, "MC_C44", "Trace_C44", floor=0.5)
